@@ -18,7 +18,7 @@ func init() {
 		ID: "C14", Title: "fragmentation lossless, bounded, reassembled exactly once",
 		Config: c14Config, Run: c14Run, MaxSteps: 70, OwnsCrash: true,
 		Rule: "sender runs = twin worlds (fragment size s vs. no fragmentation, same seed) sending texts of up to 70 000 bytes (armoured messages beyond 65535 bytes) with s from {minimum that leaves one payload byte, +1, +2, 60, 100, 1000, 65535, random}; every piece must be <= s, strictly well-formed, numbered 1..n <= 65535, and reassemble to exactly the twin's message; the peer must return each text exactly once. " +
-			"receiver runs = genuine fragment streams are permuted by an attacker (drop, duplicate, reorder, restart, wrong total, index 0 / > n, foreign and malformed tags, garbage, a whole message or a second stream interleaved, further fragments after completion); the shadow reference with the specification's reassembly rule must agree with the real party on every delivery; texts at most once. " +
+			"receiver runs = genuine fragment streams are permuted by an attacker (drop, duplicate, reorder, restart, wrong total, index 0 / > n, index and total beyond 16 bits or negative, instance tags with a sign or more than 8 digits, foreign and malformed tags, garbage, a whole encoded message of another instance between the pieces, a whole message or a second stream interleaved, further fragments after completion); the shadow reference with the specification's reassembly rule must agree with the real party on every delivery; texts at most once. " +
 			"non-trivial = at least 3 fragmented messages (sender) / 3 attacker actions on fragments (receiver); distinct = distinct (side, sizes, step sequence) signatures",
 		Assume: []string{"fragment sizes below header+separator+1 byte carry no size obligation (only absence of a crash)", "message/size combinations that would need more than 65535 pieces are not generated"},
 	})
@@ -245,7 +245,8 @@ func c14Receiver(rc *RunCtx) *Violation {
 					return
 				}
 			}
-		} else if refotr.IsArmored(r.In) {
+		} else if refotr.IsArmored(r.In) && !foreignInstance(r.In, rc.Parties[0].Tag, rc.Parties[1].Tag) {
+			// (a message from or for another instance is not part of this conversation and changes nothing, C15)
 			model = refotr.Reassembler{} // a whole message in between: the spec's receiver forgets nothing, but otr3 documents forgetting; both are accepted, the model follows the implementation's documented choice
 		}
 		// the specification's verdict (shadow with the spec's reassembly rule) must match
@@ -262,7 +263,7 @@ func c14Receiver(rc *RunCtx) *Violation {
 		}
 		if justCompleted && r.Chance(1, 2) {
 			// place the fault right after a stream completed (the context then holds a finished message)
-			return Step{K: "inject", A: r.Intn(12), B: r.Intn(1 << 16)}, true
+			return Step{K: "inject", A: r.Intn(18), B: r.Intn(1 << 16)}, true
 		}
 		// send deliver drop dup reorder inject whole deliverBA
 		wt := []int{6, 20, 2, 3, 3, 5, 2, 3}
@@ -285,7 +286,7 @@ func c14Receiver(rc *RunCtx) *Violation {
 		case 4:
 			return Step{K: "deliver", A: 0, B: 1, C: 1 + r.Intn(4)}, true
 		case 5:
-			return Step{K: "inject", A: r.Intn(12), B: r.Intn(1 << 16)}, true
+			return Step{K: "inject", A: r.Intn(18), B: r.Intn(1 << 16)}, true
 		case 6:
 			return Step{K: "whole"}, true
 		default:
@@ -320,7 +321,45 @@ func c14Receiver(rc *RunCtx) *Violation {
 				k, n, piece = model.K, model.N, string(model.Piece)
 			}
 			var f []byte
-			switch st.A % 12 {
+			raw := func(stag, rtag, ks, ns, piece string) []byte {
+				if rc.Cfg["version"] == 2 {
+					return []byte(fmt.Sprintf("?OTR,%s,%s,%s,", ks, ns, piece))
+				}
+				return []byte(fmt.Sprintf("?OTR|%s|%s,%s,%s,%s,", stag, rtag, ks, ns, piece))
+			}
+			h8 := func(t uint32) string { return fmt.Sprintf("%08x", t) }
+			switch st.A % 18 {
+			case 12: // index and total that are what the receiver expects next - modulo 65536
+				f = raw(h8(ta), h8(tb), fmt.Sprint(k+65536), fmt.Sprint(n+65536), piece)
+			case 13:
+				f = raw(h8(ta), h8(tb), fmt.Sprint(k+65536), fmt.Sprintf("%05d", n), piece)
+			case 14: // negative numbers
+				f = raw(h8(ta), h8(tb), fmt.Sprint(k-65536), fmt.Sprint(n-65536), piece)
+			case 15: // instance tags with more than 8 hex digits / a sign, equal to the genuine ones modulo 2^32
+				f = raw("1"+h8(ta), h8(tb), fmt.Sprintf("%05d", k), fmt.Sprintf("%05d", n), piece)
+				if st.B%2 == 1 {
+					f = raw(fmt.Sprintf("-%x", uint64(1<<32)-uint64(ta)), h8(tb), fmt.Sprintf("%05d", k), fmt.Sprintf("%05d", n), piece)
+				}
+			case 16, 17: // a whole encoded message of (or for) another instance arrives between the pieces
+				var src []byte
+				for _, x := range w.Arch {
+					if x.To == 1 && x.Genuine && refotr.IsArmored(x.Bytes) {
+						src = x.Bytes
+					}
+				}
+				if rawm, err := refotr.Dearmor(src); err == nil && len(rawm) > 11 && rawm[1] == 3 {
+					rawm = cp(rawm)
+					if st.A%18 == 16 {
+						rawm[6]++ // sender tag + 1
+					} else {
+						rawm[10]++ // receiver tag + 1
+					}
+					f = refotr.Armor(rawm)
+				} else {
+					f = []byte("?OTR|garbage")
+				}
+			}
+			switch st.A % 18 {
 			case 0:
 				f = mk(ta, tb, 0, n, piece)
 			case 1:
@@ -343,13 +382,13 @@ func c14Receiver(rc *RunCtx) *Violation {
 				f = mk(ta, tb, k+2, n, piece) // skips ahead
 			case 10:
 				f = mk(ta, tb, 0, 0, piece)
-			default:
+			case 11:
 				f = mk(ta, tb, 65535, 65535, "x")
 			}
-			y := &Wire{ID: w.nextWire, From: 0, To: 1, Bytes: f, Note: fmt.Sprintf("inject:%d", st.A%12), Origin: -1, Class: "inject"}
+			y := &Wire{ID: w.nextWire, From: 0, To: 1, Bytes: f, Note: fmt.Sprintf("inject:%d", st.A%18), Origin: -1, Class: "inject"}
 			w.nextWire++
 			w.Arch = append(w.Arch, y)
-			w.Fault(fmt.Sprintf("fragment-inject:%d", st.A%12))
+			w.Fault(fmt.Sprintf("fragment-inject:%d", st.A%18))
 			actions++
 			w.Deliver(y)
 		case "whole":
@@ -396,4 +435,16 @@ func c14Receiver(rc *RunCtx) *Violation {
 	rc.ProbeN("attacker_actions_on_fragments", actions)
 	rc.Probe("receiver_runs")
 	return nil
+}
+
+// foreignInstance reports whether an encoded v3 message carries a sender tag other than the
+// peer's or a receiver tag that is neither zero nor ours.
+func foreignInstance(msg []byte, peerTag, ourTag uint32) bool {
+	raw, err := refotr.Dearmor(msg)
+	if err != nil || len(raw) < 11 || raw[0] != 0 || raw[1] != 3 {
+		return false
+	}
+	st := uint32(raw[3])<<24 | uint32(raw[4])<<16 | uint32(raw[5])<<8 | uint32(raw[6])
+	rt := uint32(raw[7])<<24 | uint32(raw[8])<<16 | uint32(raw[9])<<8 | uint32(raw[10])
+	return st != peerTag || (rt != 0 && rt != ourTag)
 }
